@@ -11,13 +11,19 @@ checks = sys.argv[3:] or [prop]
 patch = os.path.abspath(os.path.join(seed, "patch.diff"))
 demo = os.path.abspath(os.path.join(seed, "demo.py"))
 out = {"property": prop, "seed": seed, "checks": {}}
-wt = tempfile.mkdtemp(prefix="sv_", dir="/tmp")
-os.rmdir(wt)
+own_wt = os.environ.get("SEED_WT")  # reuse the sub-agent's (clean) scratch worktree: some demos hard-code its path
+wt = own_wt or tempfile.mkdtemp(prefix="sv_", dir="/tmp")
+if not own_wt:
+    os.rmdir(wt)
 def sh(cmd, cwd=None, env=None, timeout=1800):
     r = subprocess.run(cmd, cwd=cwd, env=env, capture_output=True, text=True, timeout=timeout, shell=isinstance(cmd, str))
     return r.returncode, (r.stdout + r.stderr)[-1500:]
 try:
-    sh(["git", "-C", "/repo", "worktree", "add", "--detach", wt, "HEAD", "-q"])
+    if own_wt:
+        sh(["git", "checkout", "--", "."], cwd=wt)
+        out["worktree_clean"] = sh(["git", "status", "--porcelain", "--untracked-files=no"], cwd=wt)[1].strip() == ""
+    else:
+        sh(["git", "-C", "/repo", "worktree", "add", "--detach", wt, "HEAD", "-q"])
     env = dict(os.environ, PYTHONPATH=os.path.join(wt, "src"), PYTHONHASHSEED="0")
     os.makedirs(os.path.join(wt, "_seed", "x"), exist_ok=True)
     shutil.copy(demo, os.path.join(wt, "_seed", "x", "demo.py"))
@@ -30,11 +36,21 @@ try:
     else:
         rc, o = sh(["/venv/bin/python", "_seed/x/demo.py"], cwd=wt, env=env, timeout=600)
         out["demo_with_patch"] = "fails (as intended)" if rc != 0 else "PASSES (seed not demonstrated)"
-        rc, o = sh("/venv/bin/python -m pytest -q -p no:cacheprovider --timeout=900 2>&1 | tail -3", cwd=wt, env=env)
-        out["suite_with_patch"] = o.strip().splitlines()[-1] if o.strip() else ""
+        for attempt in range(3):
+            rc, o = sh("/venv/bin/python -m pytest -q -p no:cacheprovider --timeout=900 2>&1 | tail -15", cwd=wt, env=env)
+            last = o.strip().splitlines()[-1] if o.strip() else ""
+            out.setdefault("suite_runs", []).append(last)
+            out["suite_with_patch"] = last
+            if " failed" not in last:
+                break
+            out["suite_failures"] = [l for l in o.splitlines() if l.startswith("FAILED")][:5]
 finally:
-    sh(["git", "-C", "/repo", "worktree", "remove", "--force", wt])
-    shutil.rmtree(wt, ignore_errors=True)
+    if own_wt:
+        sh(["git", "checkout", "--", "."], cwd=wt)
+        shutil.rmtree(os.path.join(wt, "_seed", "x"), ignore_errors=True)
+    else:
+        sh(["git", "-C", "/repo", "worktree", "remove", "--force", wt])
+        shutil.rmtree(wt, ignore_errors=True)
 # run the checks against /repo with the patch applied
 rc, o = sh(["git", "-C", "/repo", "apply", patch])
 if rc == 0:
